@@ -2,6 +2,7 @@
 //! flexi_logger (public API, hooks on) and prints "<id> <observation>" per case.
 mod conc;
 mod flw;
+mod fmtk;
 mod lg;
 mod util;
 
@@ -35,6 +36,8 @@ fn main() {
                 "flw" => flw::run_case(toks[0], &toks[2..]),
                 "tryfrom" => flw::run_tryfrom(toks[0], &toks[2..]),
                 "conc" => conc::run_conc(toks[0], &toks[2..]),
+                "fmt" => fmtk::run_fmt(&toks[2..]),
+                "frame" => fmtk::run_frame(toks[0], &toks[2..]),
                 "spec" => lg::run_spec(&toks[2..]),
                 "specb" => lg::run_specb(&toks[2..]),
                 "lg" => lg::run_lg(toks[0], &toks[2..]),
